@@ -1,9 +1,21 @@
 package internal
 
 import (
+	"fmt"
 	"io"
 	"os"
+	"path/filepath"
 )
+
+// CheckFilename refuses anything but a bare file name. The files a .dsc or
+// .changes lists live next to it; a name with a directory part (or "..")
+// would make Copy, Move and Remove act on files somewhere else.
+func CheckFilename(name string) error {
+	if name == "." || name == ".." || filepath.Base(name) != name {
+		return fmt.Errorf("Refusing to touch '%s': not a plain file name", name)
+	}
+	return nil
+}
 
 func Copy(source, dest string) error {
 	in, err := os.Open(source)
